@@ -98,6 +98,19 @@ func Main(prop, tier string, only int) int {
 	var jobs []job
 	switch prop {
 	case "C18":
+		{
+			// true scale: the source's own capacities (512 / 128 - nothing overridden), session counts below and above
+			// them; the default schedule plus every single deviation (preemption bound 1) up to a cap, no state keys
+			// (the state is large). The cycle found in the scaled family is re-found here at the real constants.
+			ns, max := []int{300}, 40
+			if tier == "thorough" {
+				ns, max = []int{60, 129, 300}, 2000
+			}
+			for _, n := range ns {
+				p := c18Params{N: n, U: 2, Bulk: "reassoc", Ticks: 1}
+				jobs = append(jobs, job{"T(" + p.String() + " TRUE SCALE)", vsched.Config{Bound: 1, TickBudget: 1, MaxExec: max, Deadline: dl, Body: c18Body(p), Check: c18Check}})
+			}
+		}
 		for _, sc := range c18Scenarios(tier) {
 			jobs = append(jobs, job{"S(" + sc.P.String() + ")", vsched.Config{Bound: sc.Bound, TickBudget: sc.P.Ticks, MaxExec: sc.Max, Deadline: dl, StateKeys: true,
 				Body: c18Body(sc.P), Check: c18Check}})
